@@ -61,3 +61,21 @@ Lemma x2_restored :
   c13_sync_rank c13_fixed (fun g => 100 + g) c13_x2' 1 [0] =
   C13Ok [C13Pair 5 2 105 true] [(0, [((5, 2), 1)])] [(0, C13Ptrs [0%nat])].
 Proof. vm_compute. reflexivity. Qed.
+
+(* the restored world of the example and its description *)
+From DuneV Require Import C13_Proofs_World C13_Proofs_Twice.
+Definition c13_x2r : c13_world :=
+  [ C13Proc [C13Pair 5 1 0 true] [(1, [((5, 1), 2)])]; C13Proc [C13Pair 5 2 105 true] [(0, [((5, 2), 1)])] ].
+Lemma x2_is_restored : is_restored c13_x2 c13_x2r c13_d2 (fun _ g => 100 + g).
+Proof.
+  intros p. destruct (x2_cases p) as [->|[->|[E [_ H]]]]; [reflexivity | reflexivity |].
+  rewrite E. unfold c13_proc_of. rewrite nth_overflow by (simpl; lia). reflexivity.
+Qed.
+Lemma x2_world_ok : world_ok c13_x2' /\ sigma_ok c13_x2' (c13_fixed_order c13_x2').
+Proof.
+  split; [split|].
+  - intros r. apply (W'_sender_ok c13_x2 c13_x2' c13_d2 x2_consistent x2_deleted).
+  - intros p q H. destruct (x2_cases p) as [->|[->|[_ [E _]]]]; [| |rewrite E in H; contradiction];
+      simpl in H; destruct H as [<-|[]]; simpl; auto.
+  - intros r s. unfold c13_fixed_order, c13_neighbours. reflexivity.
+Qed.
